@@ -864,6 +864,11 @@ func (ce *cenv) evalCall(e *CExpr) cvar {
 			t = types.NewPointer(t)
 		}
 		return cvar{v: x.typeTest(iv, t), t: boolT}
+	case "ifaceval":
+		// ifaceval(x): the payload word of interface x (0 for nil pointers / nil funcs)
+		argn(1)
+		v := ce.eval(e.Args[0])
+		return cvar{v: mkSel(x.toTerm(v.v, v.t), 1), t: mathInt}
 	case "unboxbytes":
 		argn(1)
 		v := ce.eval(e.Args[0])
@@ -883,6 +888,57 @@ func (ce *cenv) evalCall(e *CExpr) cvar {
 		}
 		t := types.NewPointer(obj.Type())
 		return cvar{v: x.unbox(iv, t), t: t}
+	case "calls":
+		// calls(FuncKey) or calls(FuncKey, obj): ghost call counter
+		if len(e.Args) < 1 {
+			ce.fail("calls(FuncKey[, obj])")
+		}
+		key := e.Args[0].String()
+		ref := mkInt(0)
+		if len(e.Args) > 1 {
+			ref = ce.refOf(ce.eval(e.Args[1]))
+		}
+		return cvar{v: mkSelect(ce.st.H("ghost:calls:"+key, arraySort(sortInt, sortInt)), ref), t: mathInt}
+	case "callsat":
+		// callsat(FuncKey, intref): counter at an integer reference (for quantification)
+		argn(2)
+		return cvar{v: mkSelect(ce.st.H("ghost:calls:"+e.Args[0].String(), arraySort(sortInt, sortInt)), ce.evalInt(e.Args[1])), t: mathInt}
+	case "sends", "lastsent":
+		// sends(Struct.chanField, ch): number of sends on channel ch through that field
+		argn(2)
+		v := ce.eval(e.Args[1])
+		return cvar{v: mkSelect(ce.st.H("ghost:"+e.Name+":"+e.Args[0].String(), arraySort(sortInt, sortInt)), x.toTerm(v.v, v.t)), t: mathInt}
+	case "contents":
+		// contents(s): the whole backing array of slice s (for uninterpreted functions of bytes)
+		argn(1)
+		v := ce.eval(e.Args[0])
+		st, ok := types.Unalias(v.t).Underlying().(*types.Slice)
+		if !ok {
+			ce.fail("contents(): not a slice")
+		}
+		hn, so := x.env.te.elemHeap(st.Elem())
+		return cvar{v: mkSelect(ce.st.H(hn, so), sliceRef(x.toTerm(v.v, v.t))), t: nil}
+	case "sameheap":
+		// sameheap(prefix...): every heap whose name starts with one of the prefixes is unchanged since old
+		var cs []*Term
+		for _, a := range e.Args {
+			pre := a.String()
+			for _, n := range heapNames {
+				match := false
+				switch pre {
+				case "allelems":
+					match = strings.HasPrefix(n, "H:") && n != "H:byte"
+				case "allmaps":
+					match = strings.HasPrefix(n, "MD:") || strings.HasPrefix(n, "MV:") || strings.HasPrefix(n, "ML:")
+				default:
+					match = strings.HasPrefix(n, "F:"+pre+".") || strings.HasPrefix(n, "F:"+pre+"[")
+				}
+				if match {
+					cs = append(cs, mkEq(ce.st.H(n, heapSorts[n]), ce.old.H(n, heapSorts[n])))
+				}
+			}
+		}
+		return cvar{v: mkAnd(cs...), t: boolT}
 	case "unboxval":
 		// unboxval(x, TypeName): value of a package type stored in interface x
 		argn(2)
@@ -905,14 +961,22 @@ func (ce *cenv) evalCall(e *CExpr) cvar {
 		var as []*Term
 		for _, a := range e.Args[1:] {
 			v := ce.eval(a)
-			as = append(as, x.toTerm(v.v, v.t))
+			if tm, ok := v.v.(*Term); ok {
+				as = append(as, tm)
+			} else {
+				as = append(as, x.toTerm(v.v, v.t))
+			}
 		}
 		return cvar{v: mkApp("uf:"+e.Args[0].Name, sortInt, as...), t: mathInt}
 	case "ufb":
 		var as []*Term
 		for _, a := range e.Args[1:] {
 			v := ce.eval(a)
-			as = append(as, x.toTerm(v.v, v.t))
+			if tm, ok := v.v.(*Term); ok {
+				as = append(as, tm)
+			} else {
+				as = append(as, x.toTerm(v.v, v.t))
+			}
 		}
 		return cvar{v: mkApp("ufb:"+e.Args[0].Name, sortBool, as...), t: boolT}
 	}
